@@ -96,7 +96,7 @@ def rule_b(ctx):
     ctx.ob(R, td.qname, "density accumulates weight * |flux(point)| over zip(points, weights)", ok and acc and pts_ok, str(am.show()), td.node)
     l1 = ctx.model.func(WAS, "VariationalWassersteinDistance.l1_dissipation")
     am2 = AM(l1)
-    ok = am2.has(l1.node, f"transport_density = self.transport_density({l1.params[1]})") is not None and am2.has(l1.node, "return self.mass_matrix_cells.dot(transport_density).sum()") is not None
+    ok = am2.has(l1.node, f"return self.mass_matrix_cells.dot(self.transport_density({l1.params[1]})).sum()") is not None and sum(1 for r in ast.walk(l1.node) if isinstance(r, ast.Return)) == 1
     ctx.ob(R, l1.qname, "distance = sum(mass_matrix_cells . transport_density(flux))", ok, str(am2.show()), l1.node)
 
 
